@@ -1710,7 +1710,8 @@ static int ILLmsg (
 	EGLPNUM_TYPENAME_qsformat_error error;
 	char error_desc[256];
 
-	vsnprintf (error_desc, sizeof (error_desc), format, args);
+	/* leave room for the newline that may be appended below */
+	vsnprintf (error_desc, sizeof (error_desc) - 1, format, args);
 	slen = strlen (error_desc);
 	if ((slen > 0) && error_desc[slen - 1] != '\n')
 	{
